@@ -58,6 +58,11 @@ def showDisc : Except DiscErr (List (String × String)) → String
 
 def showRecord (r : Record) : String := strHex r.name ++ ":" ++ strHex r.source ++ ":" ++ showL "," strHex r.shards
 
+def parseRecord (s : String) : Option Record :=
+  match s.splitOn ":" with
+  | [a, b, c] => do pure ⟨← hexStr? a, ← hexStr? b, ← list? "," hexStr? c⟩
+  | _ => none
+
 def showSel : Except SelErr (List Record) → String
   | .ok l => "ok " ++ showL ";" showRecord l
   | .error .notFound => "err notfound"
@@ -127,7 +132,16 @@ def handle (line : String) : String :=
     | _, _, _ => badCase "fields"
   | ["select", cwd, sels, ss] =>
     match hexStr? cwd, list? "," hexStr? sels, list? ";" parseShard ss with
-    | some cwd, some sels, some inv => answer (showSel (selectRecords cwd (recordsFromShards cwd inv) sels))
+    | some cwd, some sels, some inv =>
+      let model := showSel (selectRecords cwd (recordsFromShards cwd inv) sels)
+      let implRes : Option (Option (List Record)) :=
+        match fields impl with
+        | ["ok", l] => (list? ";" parseRecord l).map some
+        | ["err", _] => some none
+        | _ => none
+      match implRes with
+      | none => badCase "impl output"
+      | some res => if checkSelect cwd sels inv res then answer model else specFail model "select-spec"
     | _, _, _ => badCase "fields"
   | ["norm", cwd, src] =>
     match hexStr? cwd, hexStr? src with
